@@ -167,7 +167,9 @@ macro_rules! impl_wide_float {
                 fn powi(mut self, mut exp: i32) -> Self {
                     if exp < 0 {
                         exp = exp.wrapping_neg();
-                        self = self.recip();
+                        // Not the inherent `recip`, which is the approximate
+                        // reciprocal instruction for `f32x4` and `f32x8`.
+                        self = Recip::recip(self);
                     }
 
                     Powu::powu(self, exp as u32)
